@@ -414,6 +414,16 @@ Section L1Proofs.
     now rewrite (a_get_in _ _ _ Hnd Hin).
   Qed.
 
+  (* the Java implementation clamps the threshold to the maximum error; for NO_FALSE_NEGATIVES that changes nothing:
+     every counter is positive, so every row has upper bound > offset *)
+  Theorem nfn_clamp_noop (s : ask) thr : Forall (fun kv => 0 < snd kv) (a_ents _ s) ->
+    a_rows _ true s thr = a_rows _ true s (Z.max thr (a_off _ s)).
+  Proof.
+    intros Hp. unfold a_rows. f_equal. apply filter_ext_in. intros kv Hin.
+    rewrite Forall_forall in Hp. specialize (Hp kv Hin).
+    destruct (Z.ltb_spec thr (snd kv + a_off _ s)); destruct (Z.ltb_spec (Z.max thr (a_off _ s)) (snd kv + a_off _ s)); auto; lia.
+  Qed.
+
   Theorem rows_sorted_desc nfn s thr :
     StronglySorted (fun p q : Item * Z => snd q + a_off _ s <= snd p + a_off _ s) (a_rows _ nfn s thr).
   Proof.
